@@ -198,12 +198,14 @@ func contractGossipVariants(c *Ctx, a *Node, f *zFollower, abFields []string, fa
 			if v = rewireBlock(v); v == nil || v.Hash != b.Hash {
 				continue
 			}
+			pre := accBefore(f, b, v)
 			gerr := f.Gossip([]*nom.AccountBlock{v})
 			res := "accepted"
 			if gerr != nil {
 				res = "rejected"
 			}
-			c.Emit("variant contract-gossip %s %s | %s", where, vk.name, res)
+			accEmit(c, f, "contract", where, vk.name, pre, b, gerr)
+			c.Emit("variant contract-gossip %s %s => %s", where, vk.name, res)
 			c.Hit("contract-gossip-" + where + "-" + vk.name + "-" + res)
 			if gerr == nil {
 				if ok, what := sameStoredBytes(f, b); !ok {
@@ -361,7 +363,7 @@ func variantsAfterReorg(c *Ctx, a *Node, f, ref *zFollower, abFields []string, f
 			if gerr != nil {
 				res = "rejected"
 			}
-			c.Emit("variant after-reorg %s %s | %s", role, vk.name, res)
+			c.Emit("variant after-reorg %s %s => %s", role, vk.name, res)
 			c.Hit("after-reorg-" + role + "-" + vk.name + "-" + res)
 			if gerr == nil {
 				if ok, what := sameStoredBytes(f, b); !ok {
@@ -408,7 +410,7 @@ func variantsAfterReorg(c *Ctx, a *Node, f, ref *zFollower, abFields []string, f
 				if lerr != nil {
 					res = "rejected"
 				}
-				c.Emit("variant after-reorg in-momentum | %s", res)
+				c.Emit("variant after-reorg in-momentum => %s", res)
 				c.Hit("after-reorg-in-momentum-" + res)
 				if ok, what := sameStoredBytes(f, honest); !ok {
 					fail("C13: the follower verified block %s/%d (hash %s) and lost it in a reorganisation; a variant with the same hash served afterwards inside momentum %d (InsertChain: %v) is stored with different bytes than the original: %s",
